@@ -31,12 +31,13 @@ package redis
 // The Go side: which script runs with which arguments, and how replies map to results.
 //@ ghost var scriptResp any
 //@ ghost var scriptErr error
+//@ ghost var scriptCalls int
 
 //@ func (s *Redis) ScriptRunCtx
 //@   trusted
 //@   results resp, err
-//@   ensures resp == scriptResp && err == scriptErr
-//@   modifies scriptResp, scriptErr
+//@   ensures resp == scriptResp && err == scriptErr && scriptCalls == old(scriptCalls) + 1
+//@   modifies scriptResp, scriptErr, scriptCalls
 
 //@ func (rl *RedisLock) AcquireCtx
 //@   property C19
@@ -47,7 +48,7 @@ package redis
 //@   ensures implies(scriptErr != nil && !errors.Is(scriptErr, red.Nil), !ok && err == scriptErr)
 //@   ensures implies(scriptErr == nil || errors.Is(scriptErr, red.Nil), err == nil)
 //@   ensures implies(scriptErr != nil || scriptResp == nil, !ok)
-//@   modifies scriptResp, scriptErr
+//@   modifies scriptResp, scriptErr, scriptCalls
 
 //@ func (rl *RedisLock) ReleaseCtx
 //@   property C19
@@ -57,4 +58,4 @@ package redis
 //@   ensures implies(scriptErr != nil, !ok && err == scriptErr)
 //@   ensures implies(scriptErr == nil, err == nil)
 //@   ensures implies(ok, scriptErr == nil && int64(scriptResp.(int64)) == 1)
-//@   modifies scriptResp, scriptErr
+//@   modifies scriptResp, scriptErr, scriptCalls
